@@ -42,6 +42,8 @@ def units(tier):
     add("R+C outer-cancel eager", [("R", "task"), ("C", "soon")], env=("outer",), eager=True)
     add("R, external spawn", [("R", "soon")], env=("spawn",), J=3)
     add("B, external spawn + group-cancel", [("B", "task")], env=("spawn", "group"), J=2)
+    add("host spawns from shielded section, group-cancel", [], body="shielded-spawn", env=("group",), T=2, J=1)
+    add("host spawns from shielded section, outer-cancel, sibling", [("R", "soon")], body="shielded-spawn", env=("outer",), T=1, J=1)
     if not quick:
         add("C+C+E", [("C", "task"), ("C", "soon"), ("E", "task")], J=2)
         add("C host-native x2 eager", [("C", "task")], env=("host", "host"), J=2, eager=True)
